@@ -47,6 +47,11 @@ var c10Positions = []c10Position{
 	{"object-value", []model.Event{model.ObjStart(-1, 0), model.Key("k")}, []model.Event{model.Key("z"), c10Seven}, []model.Event{model.ObjEnd()}},
 	{"known-object-last-value", []model.Event{model.ObjStart(2, 0), model.Key("k"), c10Seven, model.Key("z")}, nil, []model.Event{model.ObjEnd()}},
 	{"nested", []model.Event{model.ArrStart(-1, 0), model.ObjStart(1, 0), model.Key("k")}, nil, []model.Event{model.ObjEnd(), model.Nil(), model.ArrEnd()}},
+	// next to other extended events (delivered as extended events in both runs)
+	{"after-typed-array", []model.Event{model.ArrStart(-1, 0), model.Ext(model.KInt8Array, []int8{1, -1})}, []model.Event{c10Seven}, []model.Event{model.ArrEnd()}},
+	{"before-typed-map", []model.Event{model.ArrStart(3, 0), c10Seven}, []model.Event{model.Ext(model.KStringObject, map[string]string{"s": "v"})}, []model.Event{model.ArrEnd()}},
+	{"between-empty-typed", []model.Event{model.ObjStart(-1, 0), model.Key("e"), model.Ext(model.KBoolArray, []bool{}), model.Key("k")}, []model.Event{model.Key("m"), model.Ext(model.KUintObject, map[string]uint{})}, []model.Event{model.ObjEnd()}},
+	{"deep", []model.Event{model.ArrStart(1, 0), model.ArrStart(-1, 0), model.ObjStart(-1, 0), model.Key("a"), model.ArrStart(2, 0), model.Nil()}, nil, []model.Event{model.ArrEnd(), model.ObjEnd(), model.ArrEnd(), model.ArrEnd()}},
 }
 
 var c10SecondDoc = []model.Event{model.ArrStart(1, 0), model.Str("second"), model.ArrEnd()}
@@ -63,7 +68,7 @@ func init() {
 	register(func() {
 		engine.Register(&engine.Check{
 			ID: "C10", Level: "exploration",
-			Rule:        "every extended event (15 typed array kinds, 14 typed map kinds, each with nil/empty/one/two/boundary contents incl. values forcing the widest UBJSON marker; OnStringRef/OnKeyRef with the string alphabet) x 8 positions (top level, first/middle/last of known- and unknown-length arrays, object value, nested) x follow-ups (events after it in the same container, closing the container, a second document) x 12 consumers (3 encoders, unfolder into interface{} and into the matching typed target, EnsureExtVisitor over a plain visitor and over visitors exposing only one optional interface); run A delivers the extended call, run B its basic-event expansion to a second fresh consumer; oracle: same decoded value (reference decoders; map-derived objects unordered), identical bytes for everything written after the event, identical private-state fingerprint right after the event, deep-equal unfolded Go values, identical recorded events; a case = (event, position, consumer); non-trivial = non-empty contents",
+			Rule:        "every extended event (15 typed array kinds, 14 typed map kinds, each with nil/empty/one/two/boundary contents incl. values forcing the widest UBJSON marker; OnStringRef/OnKeyRef with the string alphabet) x 12 positions (top level, first/middle/last of known- and unknown-length arrays, object value, nested, 4 levels deep, directly after / before / between other extended events incl. empty ones) x follow-ups (events after it in the same container, closing the container, a second document) x 12 consumers (3 encoders, unfolder into interface{} and into the matching typed target, EnsureExtVisitor over a plain visitor and over visitors exposing only one optional interface); run A delivers the extended call, run B its basic-event expansion to a second fresh consumer; oracle: same decoded value (reference decoders; map-derived objects unordered), identical bytes for everything written after the event, identical private-state fingerprint right after the event, deep-equal unfolded Go values, identical recorded events; a case = (event, position, consumer); non-trivial = non-empty contents",
 			Assumptions: []string{"map-derived members are compared unordered", "fingerprint abstraction as in C17"},
 			Families:    c10Families,
 			Require:     []string{"pairs_compared", "fingerprints_compared", "followup_bytes_compared"},
